@@ -23,7 +23,9 @@ RULE = (
     "parsed inequalities <=> written relation for all real points (absolute values as case splits, margin 1e-9); (2) trees "
     "whose absolute values all have positive net sign on the smaller side must be accepted; (3) negative or zero net sign "
     "=> convexity error or an equivalent translation; (4) all spellings of a tree fall in one outcome class and mean the "
-    "same; (5) a panel of malformed strings must raise the syntax error; (6) each string parsed twice, and again after the "
+    "same; (5) a panel of malformed strings must raise the syntax error; arith: every parenthesised constant expression of 2-3 operands "
+    "from {1,2,4} with + - * / used as coefficient, constant and factor of a parenthesis / absolute value must, when accepted, carry "
+    "its arithmetic value; (6) each string parsed twice, and again after the "
     "whole tree's spellings, gives the same result. Non-trivial = accepted string with a coefficient != 1, an absolute "
     "value or a parenthesis; distinct strings counted."
     % NSLICES
@@ -151,6 +153,34 @@ def families():
                         yield "deep", [">=", [S(("+", num(2))), S((sg, node), ("-", var(None, "t")))]]
 
 
+def arith_exprs():
+    """constant arithmetic: 2-3 operands from {1,2,4}, operators + - * / with the usual precedence, left associative"""
+    ops = "+-*/"
+    nums = (1, 2, 4)
+    out = []
+    for a, o1, b in itertools.product(nums, ops, nums):
+        out.append(([a, b], [o1]))
+        for o2, c in itertools.product(ops, nums):
+            out.append(([a, b, c], [o1, o2]))
+    return out
+
+
+def arith_value(nums, ops):
+    vals = [F(n) for n in nums]
+    ops = list(ops)
+    i = 0
+    while i < len(ops):  # multiplicative pass, left to right
+        if ops[i] in "*/":
+            vals[i] = vals[i] * vals[i + 1] if ops[i] == "*" else vals[i] / vals[i + 1]
+            del vals[i + 1], ops[i]
+        else:
+            i += 1
+    acc = vals[0]
+    for o, v in zip(ops, vals[1:]):
+        acc = acc + v if o == "+" else acc - v
+    return acc
+
+
 SLICED = ("abs2", "deep")
 FULLSP = ("rep", "chain")
 
@@ -170,6 +200,8 @@ def cases(tier, seed):
                 continue
         yield {"fam": fam, "tree": tree}
     yield {"fam": "malformed"}
+    for nums, ops in arith_exprs():
+        yield {"fam": "arith", "nums": nums, "ops": ops}
 
 
 def describe(tier, seed):
@@ -371,6 +403,8 @@ def run_case(case):
                 viol = {"sub": {"string": s}, "what": "malformed string did not raise the syntax error (outcome %s)" % oc}
             out.append(("malformed:" + oc, False, None, viol))
         return out
+    if case["fam"] == "arith":
+        return run_arith(case)
     tree = case["tree"]
     D, rels, nets = reference(tree)
     cls = classify(nets)
@@ -418,3 +452,44 @@ def run_case(case):
         if oc not in classes:
             out.append(("nondeterministic", False, None, {"sub": {"string": s, "again": True}, "what": "re-parsing after the panel changed the outcome"}))
     return out
+
+
+def run_arith(case):
+    """parenthesised constant arithmetic used as a coefficient and as a constant"""
+    nums, ops = case["nums"], case["ops"]
+    val = arith_value(nums, ops)
+    out = []
+    for gap in ("", " "):
+        text = "(" + gap.join(str(x) for pair in zip(nums, ops + [""]) for x in pair if x != "") + ")"
+        templates = [
+            (text + "x <= 1", [O.mk({"x": val}, 1)]),
+            ("x <= " + text, [O.mk({"x": 1}, val)]),
+            ("y + " + text + " * x >= 2", [O.mk({"y": -1, "x": -val}, -2)]),
+            (text + "(x + 1) <= 3", [O.mk({"x": val}, 3 - val)]),
+            (text + "|x| <= 4", [O.mk({"x": val}, 4), O.mk({"x": -val}, 4)] if val > 0 else None),
+        ]
+        for s, ref in templates:
+            oc, r = parse(s)
+            oc2, r2 = parse(s)
+            sub = {"string": s}
+            viol = None
+            if oc.startswith("escaped"):
+                viol = {"sub": sub, "what": "parser raised %s" % oc[8:]}
+            elif oc != oc2:
+                viol = {"sub": sub, "what": "parsing the same string twice gave different outcomes"}
+            elif oc == "accepted" and ref is not None:
+                parsed = [O.rt(t) for t in r]
+                if sorted(parsed) != sorted(ref) and not _same(parsed, ref):
+                    viol = {"sub": sub, "what": "constant arithmetic %s has the value %s, but the string was parsed as %s" % (text, val, [str(t) for t in r])}
+            elif oc == "accepted" and ref is None:
+                # non-positive coefficient on an absolute value: only an equivalent translation is admissible
+                pass
+            out.append(("arith:" + oc, oc == "accepted", None, viol, {"equiv-checked": 1} if oc == "accepted" else None))
+    return out
+
+
+def _same(t1, t2):
+    for a, b in ((t1, t2), (t2, t1)):
+        if b and O.find_point(O.AND(O.sat(a), O.OR([("gt", t, EPS * (1 + abs(t[1]))) for t in b])), box=None) is not None:
+            return False
+    return True
